@@ -108,6 +108,7 @@ type Exec struct {
 	bvInts    bool
 	maxViol   int
 	deadline  time.Time
+	reseeds   int
 	xsample   int // cross-check every n-th decided obligation (0 = off)
 	xcount    int
 	xchecked  int
@@ -144,6 +145,7 @@ func (ex *Exec) RunPath(fn *ssa.Function, trail []int) (res *PathResult, newTrai
 	ex.axDone = map[string]bool{}
 	ex.axByTrig = map[int][]*axEntry{}
 	ex.onceDone = map[*Cell]bool{}
+	ex.reseeds = 0
 	ex.sol.alias = map[int]*Term{}
 	ex.nondets = map[string]*Term{}
 	ex.ranges = map[string][2]int64{}
